@@ -27,7 +27,11 @@ class C11(RunProp):
             if r < 0.6:
                 c = gen.gen_dag_program(rng, max_nodes=7, depth=rng.choice([0, 1, 2]), allow_fed_default=False, allow_emit=False)
                 c = gen.inject_failure(rng, c, rng.choice([1, 1, 2]))
-                c["cfg"] = {"errMode": rng.choice(["raise", "continue"])}
+                if rng.random() < 0.4:
+                    c = gen.with_cfg(rng, c)
+                    c["cfg"].setdefault("errMode", rng.choice(["raise", "continue"]))
+                else:
+                    c["cfg"] = {"errMode": rng.choice(["raise", "continue"])}
                 kind = "dag"
             elif r < 0.8:
                 c = gen.inject_failure(rng, gen.gen_gated_dag(rng))
@@ -66,6 +70,9 @@ class C11(RunProp):
             return None
         # FAILED result: only correct values of completed nodes; nothing from the failing node or downstream of it
         exposed = refeval.graph_outputs(program, len(program) - 1)
+        sel = case["cfg"].get("select")
+        if sel is not None and sel != "**":
+            exposed = [o for o in exposed if o in sel]
         good = {k: enc_val(v) for k, v in ref.values.items() if k in exposed}
         for k, v in obs["values"]:
             if k not in good:
